@@ -5,6 +5,7 @@ KinModel/RouterSpec.lean (property side), helper lemmas in KinModel/Lemmas/C09*.
 -/
 import KinModel.Router
 import KinModel.RouterSpec
+import KinModel.RouterHist
 import KinModel.Lemmas.C09Legacy
 import KinModel.Lemmas.C09LegacyComplete
 import KinModel.Lemmas.C09LegacyLiteral
@@ -64,6 +65,7 @@ theorem router_facts_legacy :
     routerFact "legacy.newRouter.ranges" = some "doc.Paths.Map() | pathItem.Operations()" ∧
     routerFact "legacy.newRouter.routeFields" = some "Spec,Path,PathItem,Method,Operation" ∧
     routerFact "legacy.findRoute.setsRouteServer" = some "r.Server = server" ∧
+    routerFact "legacy.findRoute.copyBranch" = some "if server != nil { r := *route r.Server = server route = &r }" ∧
     routerFact "legacy.findRoute.serversFrom" = some "doc.Servers" ∧
     routerFact "legacy.findRoute.remainingPath" = some "remainingPath = url.Path | server, paramValues, remainingPath = servers.MatchURL(url)" ∧
     routerFact "servers.matchURL.input" = some "rawURL := parsedURL.String()" ∧
@@ -1387,5 +1389,67 @@ open W in
 /-- the request side of the `*_abs` theorems: well separated scheme / host / path, no port -/
 example : ReqWF ⟨get, true, s "https", s "example.com", s "/api/v2/a"⟩ ∧ ':' ∉ s "example.com" := by
   unfold ReqWF; decide +kernel
+
+/-! ## the history dimension: many `FindRoute` calls on one router, callers keep the routes of earlier calls
+    (`KinModel/RouterHist.lean`; tied by the rows `gorilla.findRoute.copy`, `legacy.findRoute.setsRouteServer` of `RouterFacts`
+    and by the runner, which re-inspects a returned route after later calls with another method and through other servers) -/
+
+/-- a step that hands out copies (or unwritten stored pointers) leaves the store alone, for every pick function -/
+theorem history_copy_store_unchanged (find : Req → Option Pick) (st : Store) (reqs : List Req) :
+    (runHist (stepCopy find) st reqs).1 = st :=
+  runHist_store_of_pure _ (stepCopy_store find) st reqs
+
+/-- every answer within a history is the answer the freshly built router gives to that request alone -/
+theorem history_copy_answers (find : Req → Option Pick) (st : Store) (reqs : List Req) :
+    (runHist (stepCopy find) st reqs).2 = reqs.map (fun r => (stepCopy find st r).2) :=
+  runHist_handles_of_pure _ (stepCopy_store find) st reqs
+
+/-- a route a caller holds reads the same after any later history on the same router (both routers: `stepCopy`) -/
+theorem history_copy_results_stable (find : Req → Option Pick) (st : Store) (r : Req) (later : List Req) (h : RHandle)
+    (_hh : (stepCopy find st r).2 = some h) :
+    observe (runHist (stepCopy find) (stepCopy find st r).1 later).1 h = observe st h := by
+  rw [history_copy_store_unchanged, stepCopy_store]
+
+/-- gorillamux: whatever was asked before (`before`) and whatever is asked afterwards (`later`), the route returned for
+    `req` names exactly what the one-shot model `gFirst` names (template, method, server), at return time and for ever -/
+theorem gorilla_history_route (rs : List GRoute) (before later : List Req) (req : Req) (t m : Str)
+    (ps : List (Str × Str)) (sv : SrvRef) (h : gFirst rs req = .route t m ps sv) :
+    ∃ hd, (runHist (stepCopy (gPick rs)) (gStore rs) (before ++ req :: later)).2[before.length]? = some (some hd) ∧
+      observe (runHist (stepCopy (gPick rs)) (gStore rs) (before ++ req :: later)).1 hd = some ⟨t, m, sv⟩ := by
+  obtain ⟨i, r, hi, hr, h1, h2, h3⟩ := gFirstIdx_route rs req t m ps sv h
+  refine ⟨.copy ⟨t, m, sv⟩, ?_, rfl⟩
+  rw [history_copy_answers]
+  simp only [List.map_append, List.map_cons]
+  rw [List.getElem?_append_right (by simp)]
+  simp only [List.length_map, Nat.sub_self, List.getElem?_cons_zero, Option.some.injEq]
+  have hst : (gStore rs)[i]? = some ⟨r.template, [], r.srv.ref⟩ := by simp [gStore, hr]
+  simp [stepCopy, gPick, hi, hst, Pick.apply, h1, h2, h3]
+
+/-- gorillamux: an error answer of the history model is an error answer of `gFirst` (no route is invented by reuse) -/
+theorem gorilla_history_error (rs : List GRoute) (st : Store) (req : Req) (h : gPick rs req = none) :
+    (stepCopy (gPick rs) st req).2 = none ∧ (gFirst rs req = .notFound ∨ gFirst rs req = .methodNotAllowed) := by
+  refine ⟨by simp [stepCopy, h], gFirstIdx_none rs req ?_⟩
+  simpa [gPick] using h
+
+open W in
+/-- witness for the class the copy protects against (seeded change C09-r3m2 and its twins): with the write made in place,
+    the route returned for GET reads POST after the next call -/
+theorem witness_history_in_place :
+    let find : Req → Option Pick := fun r => some ⟨0, some r.method, none⟩
+    let st : Store := [⟨s "/a", [], .doc 0⟩]
+    let a := stepInPlace find st (req "GET" "/a")
+    let b := runHist (stepInPlace find) a.1 [req "POST" "/a"]
+    a.2.bind (observe a.1) = some ⟨s "/a", get, .doc 0⟩ ∧ a.2.bind (observe b.1) = some ⟨s "/a", post, .doc 0⟩ := by
+  decide +kernel
+
+open W in
+/-- non-vacuity of `gorilla_history_route`: two requests through the two servers of `dTwo` on one router; both handles read
+    their own server after the whole history -/
+example : ∃ rs, gorillaRoutes dTwo = some rs ∧
+    (let h := runHist (stepCopy (gPick rs)) (gStore rs) [reqRel "GET" "/v1/a", reqRel "GET" "/v2/x/a"]
+     h.2.map (fun o => o.bind (observe h.1)) =
+       [some ⟨s "/a", get, .doc 0⟩, some ⟨s "/a", get, .doc 1⟩]) := by
+  refine ⟨(gorillaRoutes dTwo).getD [], by decide +kernel, ?_⟩
+  decide +kernel
 
 end KinModel.Props.C09
